@@ -106,6 +106,7 @@ class Gen:
         self.weird = cfg.get("weird_names", False)
         self.depth = cfg.get("depth", 0)
         self.overridable = []  # names of initializer-inputs
+        self.sym_sample = cfg.get("sym_sample", {})  # symbol -> sample size (symbolic mode)
 
     # ------------------------------------------------------------------ helpers
     def set_opset(self, version):
@@ -161,6 +162,23 @@ class Gen:
             shape = tuple(self.pick([1, 2, 3, 4, 2, 3, 0 if self.cfg.get("zero_dims") and self.chance(1, 8) else 2]) for _ in range(rank))
         name = self.fresh("x")
         arr = make_array(self.seed(), dtype, shape, style or self.pick(["mixed", "edge", "smallint"]))
+        if dims is None and self.cfg.get("symbolic") and len(shape):
+            # declare some dims symbolically: named (possibly repeated when the sample sizes agree) or unnamed
+            dims = []
+            for d in shape:
+                k = self.draw(st.integers(0, 5))
+                if k <= 1:
+                    dims.append(int(d))
+                elif k == 2:
+                    dims.append(None)
+                else:
+                    nm = self.pick(["N", "M", "K"])
+                    prev = self.sym_sample.get(nm)
+                    if prev is None or prev == d:
+                        self.sym_sample[nm] = int(d)
+                        dims.append(nm)
+                    else:
+                        dims.append(None)
         v = Val(name, arr, "input")
         self.env.append(v)
         self.inputs.append((v, list(dims) if dims is not None else list(shape)))
@@ -212,7 +230,7 @@ class Gen:
         if exact_shape:
             shape = tuple(target_shape)
         else:
-            k = self.draw(st.integers(0, 5))
+            k = self.draw(st.integers(0, 5)) if not self.cfg.get("symbolic") else self.draw(st.integers(0, 2))
             if k == 0 or rank == 0:
                 shape = ()
             elif k == 1:
@@ -1152,6 +1170,35 @@ class GenModel:
     n_nodes: int
     dropped: int
     value_types: dict
+    declared: dict = dataclasses.field(default_factory=dict)  # input name -> declared dims (int | str | None)
+
+    def symbols(self):
+        """Independent shape variables: named symbols and one per unnamed dim."""
+        out = []
+        for name, dims in self.declared.items():
+            for i, d in enumerate(dims):
+                if isinstance(d, str) and d not in out:
+                    out.append(d)
+                elif d is None:
+                    out.append((name, i))
+        return out
+
+    def feeds_for_binding(self, binding, seed):
+        """binding: dict symbol -> size.  Returns feeds with the bound shapes."""
+        rng = np.random.default_rng(seed)
+        out = {}
+        for name, dt, shape in self.input_specs:
+            dims = self.declared.get(name, shape)
+            shp = []
+            for i, d in enumerate(dims):
+                if isinstance(d, str):
+                    shp.append(binding[d])
+                elif d is None:
+                    shp.append(binding[(name, i)])
+                else:
+                    shp.append(int(d))
+            out[name] = make_array(int(rng.integers(0, 2**31 - 1)), dt, tuple(shp), ["mixed", "edge", "smallint"][int(rng.integers(0, 3))])
+        return out
 
     def feeds(self, seed, style=None, override=False):
         """Another input tuple of the same shapes.  override=True also feeds drawn values (same dtype/shape) to the
@@ -1251,7 +1298,8 @@ def assemble(g: Gen, draw, force_outputs=()):
         except Exception:  # noqa: BLE001
             pass
     feeds = {v.name: v.arr for v, _ in g.inputs if v.kind == "input"}
-    return GenModel(model, feeds, specs, sorted(g.features), list(g.overridable), len(g.nodes), g.dropped, dict(g.value_types))
+    declared = {v.name: list(dims) for v, dims in g.inputs if v.kind == "input"}
+    return GenModel(model, feeds, specs, sorted(g.features), list(g.overridable), len(g.nodes), g.dropped, dict(g.value_types), declared)
 
 
 def _free_names(graph):
